@@ -199,7 +199,7 @@ class Exec:
             return Ref([self.read_place(p, pl)])
         if rv.startswith('(') and not rv.startswith('(*') and not re.match(r'\(\(?\*?_\d+', rv):
             return tuple(self.operand(p, x) for x in split_top(rv[1:-1]))
-        if rv.endswith(')') and not rv.startswith(('copy ', 'move ', 'const ', '(', '&')) and '::' in rv:
+        if rv.endswith(')') and not rv.startswith(('copy ', 'move ', 'const ', 'no_retag ', '(', '&')) and '::' in rv:
             d, j = 0, len(rv) - 1
             while j >= 0:
                 if rv[j] == ')': d += 1
